@@ -179,7 +179,7 @@ impl Axecutor {
             let fd_ptr = ax.reg_read_64(RDI)?;
 
             ax.mem_write_64(fd_ptr, read_end)?;
-            ax.mem_write_64(fd_ptr + 8, write_end)?;
+            ax.mem_write_64(fd_ptr.wrapping_add(8), write_end)?;
 
             ax.reg_write_64(RAX, 0)?;
 
@@ -305,7 +305,17 @@ impl Axecutor {
             }
 
             // Otherwise, we resize the brk section to the new size
-            let new_length = brk - ax.state.syscalls.brk_start;
+            let new_length = match brk.checked_sub(ax.state.syscalls.brk_start) {
+                Some(len) => len,
+                None => {
+                    // Like Linux, refuse to move the break below the heap start and report the current break
+                    ax.reg_write_64(
+                        RAX,
+                        ax.state.syscalls.brk_start + ax.state.syscalls.brk_length,
+                    )?;
+                    return Ok(HookResult::Handled);
+                }
+            };
             ax.mem_resize_section(ax.state.syscalls.brk_start, new_length)?;
 
             ax.state.syscalls.brk_length = new_length;
